@@ -8,7 +8,8 @@ here="$(cd "$(dirname "$0")/.." && pwd)"
 export GOFLAGS=-mod=mod GOPROXY=off GOSUMDB=off GOTOOLCHAIN=local
 scratch=/var/tmp/seedrun-$$
 rm -rf "$scratch"; mkdir -p "$scratch"
-trap 'rm -rf "$scratch"; rm -f "$here"/.build/alt-*.mod "$here"/.build/alt-*.sum "$here"/.build/props-*.test' EXIT INT TERM
+h=$(printf %s "$scratch" | sha256sum | cut -c1-8)
+trap 'rm -rf "$scratch"; rm -f "$here"/.build/alt-$h.mod "$here"/.build/alt-$h.sum "$here"/.build/props-$h.test "$here"/.build/props-$h.race.test' EXIT INT TERM
 rsync -a --exclude .git /repo/ "$scratch"/
 if ! (cd "$scratch" && patch -p1 -s --no-backup-if-mismatch < "$patch" >/dev/null 2>&1); then echo "seedrun: patch does not apply: $patch"; exit 3; fi
 if ! (cd "$scratch" && go build ./... 2>/tmp/seedrun-build.log); then echo "seedrun: does not compile"; cat /tmp/seedrun-build.log; exit 3; fi
